@@ -261,7 +261,7 @@ def rule_generated(repo: Repo, rep: Report) -> int:
     cons = [s for s in stmts_of(fi.body) if isinstance(s, ast.Assign) and unparse(s.targets[0]) in ("real_parts", "imag_parts") and isinstance(s.value, ast.Call)]
     r_ok = any(unparse(s.targets[0]) == "real_parts" and "base_levels[i]" in unparse(s.value) for s in cons)
     i_ok = any(unparse(s.targets[0]) == "imag_parts" and "base_levels[j]" in unparse(s.value) for s in cons)
-    rep.check(r_ok and i_ok, "GENERATED-TABLE", fi, "QAM grid: real = base_levels[i], imag = base_levels[j] for i (outer), j (inner)", "index i*k + j sits at (level i, level j)", "the grid construction changed: index -> position map unknown")
+    rep.shape(r_ok and i_ok, False, "GENERATED-TABLE", fi, "QAM grid: real = base_levels[i], imag = base_levels[j] for i (outer), j (inner)", "index i*k + j sits at (level i, level j)", "the grid construction changed: index -> position map unknown")
     n += 1
     bl = [s for s in stmts_of(fi.body) if isinstance(s, ast.Assign) and unparse(s.targets[0]) == "base_levels"]
     for s in bl:
@@ -351,7 +351,26 @@ def rule_normalise(repo: Repo, rep: Report) -> int:
                 detail = f"{var} = {unparse(tgt)}; energy = {unparse(en)}"
         elif len(blocks) == 1:
             detail = "the normalisation block is nested under another condition: it does not run for every configuration"
-        rep.check(ok, "NORMALISE", fi, f"{cname}: {detail}", "division by sqrt(mean |c|^2) whenever normalize is set: unit average energy", "normalisation is not `c / sqrt(mean |c|^2)` under `if self.normalize` at the top level of the constructor", node=blocks[0] if blocks else fi.node)
+        wrong_n = len(blocks) == 1 and blocks[0] not in fi.body
+        if not ok and len(blocks) == 1 and blocks[0] in fi.body:
+            # semantic evaluation: after the block the sample constellation must have unit average energy
+            from ..frag import run_fragment
+
+            try:
+                for sample in ([1.0, -3.0, 3.0, -1.0], [complex(1, 1), complex(-3, 1), complex(3, -3), complex(-1, 3)] if var == "constellation" else [-7.0, -5.0, 5.0, 7.0]):
+                    env_ = run_fragment(blocks[0].body, {var: list(sample)})
+                    out_ = env_.get(var)
+                    e_ = sum(abs(z) ** 2 for z in out_) / len(out_)
+                    if abs(e_ - 1.0) > 1e-9:
+                        wrong_n = True
+                        detail += f"; for the points {sample} the block leaves average energy {e_:.4g}"
+                        break
+                else:
+                    ok = True
+                    detail += " (unlisted shape; evaluated: unit average energy on two sample tables)"
+            except Exception as exc:  # not evaluable with literal arithmetic
+                detail += f" (not evaluable: {exc})"
+        rep.shape(ok, wrong_n, "NORMALISE", fi, f"{cname}: {detail}", "division by sqrt(mean |c|^2) whenever normalize is set: unit average energy", "normalisation is not `c / sqrt(mean |c|^2)` under `if self.normalize` at the top level of the constructor", node=blocks[0] if blocks else fi.node)
         n += 1
     return n
 
@@ -383,7 +402,7 @@ def rule_gray_utils(repo: Repo, rep: Report) -> int:
             okb = (t0, t1) == ("mask", "result") and classify(body[0], forms["mask"], int_context=True)[0] == OK and classify(body[1], forms["result"], int_context=True)[0] == OK
         inits = {unparse(s.targets[0]): unparse(s.value) for s in fi.body if isinstance(s, ast.Assign)}
         oki = inits.get("mask") == "num" and inits.get("result") == "num"
-        rep.check(s1 == OK and okb and oki, "GRAY-UTIL", fi, f"gray_to_binary: while {unparse(w.test)}: {'; '.join(unparse(x) for x in body)}", "full prefix-XOR: result = g ^ (g>>1) ^ (g>>2) ^ ... until the shifted word is 0 (valid for every word length)", "the inverse Gray map is not the unbounded prefix-XOR loop", node=w)
+        rep.shape(s1 == OK and okb and oki, s1 == VIOLATION, "GRAY-UTIL", fi, f"gray_to_binary: while {unparse(w.test)}: {'; '.join(unparse(x) for x in body)}", "full prefix-XOR: result = g ^ (g>>1) ^ (g>>2) ^ ... until the shifted word is 0 (valid for every word length)", "the inverse Gray map is not the unbounded prefix-XOR loop", node=w)
     else:
         shifts = [unparse(x) for x in ast.walk(fi.node) if isinstance(x, ast.BinOp) and isinstance(x.op, ast.RShift)]
         if shifts and not loops:
@@ -404,7 +423,7 @@ def rule_gray_utils(repo: Repo, rep: Report) -> int:
         ok = len(calls) == 1 and call_name(calls[0]) == scalar
         loops = [s for s in stmts_of(fi.body) if isinstance(s, ast.For)]
         okl = len(loops) == 1 and match(loops[0], f"for _I, _N in enumerate(_T):\n    _O[_I] = {scalar}(int(_N))") is not None
-        rep.check(ok and okl, "GRAY-UTIL", fi, f"{fname}: elementwise {call_name(calls[0]) if calls else '?'}", "array form = scalar form applied to every element, in place order", f"{fname} is not the elementwise application of {scalar}", node=loops[0] if loops else fi.node)
+        rep.shape(ok and okl, bool(calls) and any(call_name(c_) != scalar for c_ in calls), "GRAY-UTIL", fi, f"{fname}: elementwise {call_name(calls[0]) if calls else '?'}", "array form = scalar form applied to every element, in place order", f"{fname} is not the elementwise application of {scalar}", node=loops[0] if loops else fi.node)
         n += 1
     for fname in ("binary_to_gray", "gray_to_binary"):
         lint_value_keyed(rep, repo.func(UT, fname), rule="G1", allowed_literals={0, 1, -1})
